@@ -507,6 +507,419 @@ class TreeFn:
         return f"Definition gen_{fd.name} {ps} : {self.COQ[self.rett]} :=\n  {body}.", ([t for _, t in params], self.rett)
 
 
+class ProcFn:
+    """Third translation scheme, for procedures that may raise and that fill a per-object cache
+    (yarl/_url.py: encode_url, pre_encoded_url).  Result type: [result gen_url] (Model/GenTypes.v) -
+    the five stored strings and the cache as an association list, in the order of the stores.
+
+    Like TreeFn the body is read as a decision tree with the rest of the function as the
+    continuation of every branch, so tests narrow Optionals; in addition
+      - a call of a function that may raise ([split_url], [split_netloc], [_encode_host]) is a bind
+        in the result monad, [raise ValueError(...)] is [Err ValueError];
+      - [a, b, c = f(x)] destructures the tuple;   [a = b = c = None] binds statically-None names;
+      - [cache["key"] = e] appends [("key", value)] to the cache;  [self = object.__new__(URL)],
+        [self._x = e] and [return self] build the record;
+      - an [if] whose branches only re-assign existing str variables from total expressions and whose
+        test needs no narrowing is emitted as an expression (no duplication of the continuation);
+      - callees are the MODEL's functions (themselves tied to the source by translation or by the
+        correspondence runs): the table CALLEES below is part of the trusted base.
+    Conditions: truthiness of str / bool, ["c" in s], [s in TABLE], [x is None], [x is not None],
+    truthiness of an Optional[str] (narrowing), [and] / [or] / [not].  Expressions: names, str literals,
+    None, f-strings over str and int, [a if c else b], [h[1:-1]], calls of total callees with
+    positional and keyword arguments (defaults from the table).  Anything else fails closed."""
+
+    COQ = {"str": "str", "bool": "bool", "int": "N", "optstr": "option str", "optint": "option N"}
+    # python name -> (coq head, [(param name, type, default text or None)], return type, may raise)
+    CALLEES = {
+        "split_url": ("split_url (o_nfkc O)", [("url", "str", None)], ("str", "str", "str", "str", "str"), True),
+        "split_netloc": ("split_netloc", [("netloc", "str", None)], ("optstr", "optstr", "optstr", "optint"), True),
+        "_encode_host": ("encode_host O", [("host", "str", None), ("validate_host", "bool", None)], "str", True),
+        "REQUOTER": ("Q B REQUOTER", [("s", "str", None)], "str", False),
+        "PATH_REQUOTER": ("Q B PATH_REQUOTER", [("s", "str", None)], "str", False),
+        "QUERY_REQUOTER": ("Q B QUERY_REQUOTER", [("s", "str", None)], "str", False),
+        "FRAGMENT_REQUOTER": ("Q B FRAGMENT_REQUOTER", [("s", "str", None)], "str", False),
+        "normalize_path": ("normalize_path", [("path", "str", None)], "str", False),
+        "make_netloc": ("make_netloc' B", [("user", "optstr", None), ("password", "optstr", None), ("host", "optstr", None),
+                                           ("port", "optint", None), ("encode", "bool", "false")], "str", False),
+    }
+    TABLES = ("SCHEME_REQUIRES_HOST", "USES_AUTHORITY")
+    FIELDS = ("_scheme", "_netloc", "_path", "_query", "_fragment", "_cache")
+
+    def coerce(self, text, have, want):
+        if have == want:
+            return text
+        if have == "none" and want in ("optstr", "optint"):
+            return "None"
+        if (have, want) in (("str", "optstr"), ("int", "optint")):
+            return f"(Some {text})"
+        raise Untranslatable(f"a value of type {have} where {want} is expected: {text[:40]}")
+
+    def cval(self, text, t):
+        return {"str": f"(CStr {text})", "optstr": f"(COptStr {text})", "optint": f"(COptInt {text})",
+                "int": f"(CInt {text})", "none": "CNone"}[t] if t in ("str", "optstr", "optint", "int", "none") else self.bad("cache value of type " + t)
+
+    def bad(self, msg):
+        raise Untranslatable(msg)
+
+    # ---- total expressions
+    def expr(self, e, env):
+        if isinstance(e, ast.Name):
+            t = env.get(e.id)
+            if t is None or t in ("cache", "self"):
+                raise Untranslatable("name " + e.id)
+            return ("None" if t == "none" else e.id), t
+        if isinstance(e, ast.Constant) and isinstance(e.value, str):
+            return lit(e.value), "str"
+        if isinstance(e, ast.Constant) and e.value is None:
+            return "None", "none"
+        if isinstance(e, ast.Constant) and isinstance(e.value, bool):
+            return ("true" if e.value else "false"), "bool"
+        if isinstance(e, ast.JoinedStr):
+            parts = []
+            for v in e.values:
+                if isinstance(v, ast.Constant):
+                    parts.append(lit(v.value))
+                elif isinstance(v, ast.FormattedValue) and v.conversion == -1 and v.format_spec is None:
+                    t, tt = self.expr(v.value, env)
+                    if tt == "str":
+                        parts.append(t)
+                    elif tt == "int":
+                        parts.append(f"str_of_N {t}")
+                    else:
+                        raise Untranslatable("f-string field of type " + tt + ": " + ast.unparse(e))
+                else:
+                    raise Untranslatable("f-string " + ast.unparse(e))
+            return "(" + " ++ ".join(parts or ["[]"]) + ")", "str"
+        if isinstance(e, ast.Subscript) and isinstance(e.slice, ast.Slice) and e.slice.step is None \
+                and isinstance(e.slice.lower, ast.Constant) and e.slice.lower.value == 1 \
+                and isinstance(e.slice.upper, ast.UnaryOp) and isinstance(e.slice.upper.op, ast.USub) \
+                and isinstance(e.slice.upper.operand, ast.Constant) and e.slice.upper.operand.value == 1:
+            v, tv = self.expr(e.value, env)
+            if tv != "str":
+                raise Untranslatable("slice of " + tv)
+            return f"(removelast (tl {v}))", "str"
+        if isinstance(e, ast.IfExp):
+            c = self.cond_bool(e.test, env)
+            if c in ("true", "false"):
+                return self.expr(e.body if c == "true" else e.orelse, env)
+            a, ta = self.expr(e.body, env)
+            b, tb = self.expr(e.orelse, env)
+            t = self.join(ta, tb)
+            return f"(if {c} then {self.coerce(a, ta, t)} else {self.coerce(b, tb, t)})", t
+        if isinstance(e, ast.Call) and isinstance(e.func, ast.Name) and e.func.id in self.CALLEES:
+            head, params, rett, raises = self.CALLEES[e.func.id]
+            if raises:
+                raise Untranslatable("a call that may raise inside an expression: " + ast.unparse(e))
+            return self.call_text(e, env), rett
+        raise Untranslatable("expression " + ast.unparse(e))
+
+    def join(self, ta, tb):
+        if ta == tb:
+            return ta
+        for a, b in ((ta, tb), (tb, ta)):
+            if a in ("str", "none") and b == "optstr":
+                return "optstr"
+            if a in ("int", "none") and b == "optint":
+                return "optint"
+            if a == "none" and b == "str":
+                return "optstr"
+            if a == "none" and b == "int":
+                return "optint"
+        raise Untranslatable(f"branches of types {ta} and {tb}")
+
+    def call_text(self, e, env):
+        head, params, rett, raises = self.CALLEES[e.func.id]
+        given = {}
+        if len(e.args) > len(params):
+            raise Untranslatable("too many arguments: " + ast.unparse(e))
+        for (pn, pt, pd), a in zip(params, e.args):
+            given[pn] = a
+        for kw in e.keywords:
+            if kw.arg is None or kw.arg in given or kw.arg not in [p[0] for p in params]:
+                raise Untranslatable("keyword " + ast.unparse(e))
+            given[kw.arg] = kw.value
+        args = []
+        for pn, pt, pd in params:
+            if pn in given:
+                t, tt = self.expr(given[pn], env)
+                args.append(self.coerce(t, tt, pt))
+            elif pd is not None:
+                args.append(pd)
+            else:
+                raise Untranslatable("missing argument " + pn + ": " + ast.unparse(e))
+        return "(" + head + " " + " ".join(args) + ")"
+
+    # ---- conditions
+    def cond_bool(self, test, env):
+        """a test that needs no narrowing, as a Coq bool"""
+        if isinstance(test, ast.BoolOp):
+            is_and = isinstance(test.op, ast.And)
+            unit, zero = ("true", "false") if is_and else ("false", "true")
+            parts = [self.cond_bool(v, env) for v in test.values]
+            if zero in parts:
+                return zero                 # statically decided (operands are side-effect free)
+            parts = [x for x in parts if x != unit]
+            if not parts:
+                return unit
+            return parts[0] if len(parts) == 1 else "(" + (" && " if is_and else " || ").join(parts) + ")"
+        if isinstance(test, ast.UnaryOp) and isinstance(test.op, ast.Not):
+            c = self.cond_bool(test.operand, env)
+            return {"true": "false", "false": "true"}.get(c, f"(negb {c})")
+        if isinstance(test, ast.Name):
+            t = env.get(test.id)
+            if t == "str":
+                return f"(nonempty {test.id})"
+            if t == "bool":
+                return test.id
+            if t == "none":
+                return "false"
+            raise Untranslatable("narrowing test")
+        if isinstance(test, ast.Compare) and len(test.ops) == 1:
+            op, l, r = test.ops[0], test.left, test.comparators[0]
+            if isinstance(op, (ast.In, ast.NotIn)) and isinstance(r, ast.Name):
+                if env.get(r.id) == "str":
+                    t = f"(mem {one_char(l)} {r.id})"
+                elif r.id in self.TABLES and isinstance(l, ast.Name) and env.get(l.id) == "str":
+                    t = f"(str_in {l.id} {r.id})"
+                else:
+                    raise Untranslatable("membership " + ast.unparse(test))
+                return t if isinstance(op, ast.In) else f"(negb {t})"
+            if isinstance(op, (ast.Is, ast.IsNot)) and isinstance(l, ast.Name) and isinstance(r, ast.Constant) and r.value is None:
+                t = env.get(l.id)
+                if t in ("str", "int", "bool"):
+                    return "false" if isinstance(op, ast.Is) else "true"
+                if t == "none":
+                    return "true" if isinstance(op, ast.Is) else "false"
+                raise Untranslatable("narrowing test")
+        raise Untranslatable("condition " + ast.unparse(test))
+
+    def branch(self, test, env, then_k, else_k):
+        try:
+            c = self.cond_bool(test, env)
+        except Untranslatable:
+            c = None
+        if c is not None:
+            if c == "true":
+                return then_k(env)
+            if c == "false":
+                return else_k(env)
+            return f"(if {c} then {then_k(env)} else {else_k(env)})"
+        if isinstance(test, ast.BoolOp):
+            first, rest = test.values[0], test.values[1:]
+            more = rest[0] if len(rest) == 1 else ast.BoolOp(op=test.op, values=rest)
+            if isinstance(test.op, ast.And):
+                return self.branch(first, env, lambda e1: self.branch(more, e1, then_k, else_k), else_k)
+            return self.branch(first, env, then_k, lambda e1: self.branch(more, e1, then_k, else_k))
+        if isinstance(test, ast.UnaryOp) and isinstance(test.op, ast.Not):
+            return self.branch(test.operand, env, else_k, then_k)
+        if isinstance(test, ast.Compare) and len(test.ops) == 1 and isinstance(test.left, ast.Name) \
+                and isinstance(test.comparators[0], ast.Constant) and test.comparators[0].value is None \
+                and isinstance(test.ops[0], (ast.Is, ast.IsNot)):
+            x = test.left.id
+            t = env.get(x)
+            if t not in ("optstr", "optint"):
+                raise Untranslatable("None test of " + x + " of type " + str(t))
+            some_env = dict(env)
+            some_env[x] = "str" if t == "optstr" else "int"
+            none_env = dict(env)
+            none_env[x] = "none"
+            none_k, some_k = (then_k, else_k) if isinstance(test.ops[0], ast.Is) else (else_k, then_k)
+            return f"(match {x} with None => {none_k(none_env)} | Some {x} => {some_k(some_env)} end)"
+        if isinstance(test, ast.Name) and env.get(test.id) == "optstr":
+            x = test.id
+            e1 = dict(env)
+            e1[x] = "str"
+            return f"(match {x} with Some ((_ :: _) as {x}) => {then_k(e1)} | _ => {else_k(env)} end)"
+        raise Untranslatable("condition " + ast.unparse(test))
+
+    # ---- an [if] that only re-assigns existing str variables, as an expression
+    def pure_if(self, st, env):
+        names = []
+
+        def collect(stmts):
+            for b in stmts:
+                if isinstance(b, ast.Assign) and len(b.targets) == 1 and isinstance(b.targets[0], ast.Name):
+                    n = b.targets[0].id
+                    if env.get(n) != "str":
+                        raise Untranslatable("not a plain re-assignment")
+                    if n not in names:
+                        names.append(n)
+                elif isinstance(b, ast.If):
+                    collect(b.body)
+                    collect(b.orelse)
+                else:
+                    raise Untranslatable("not an assignment-only branch")
+        collect([st])
+        tup = names[0] if len(names) == 1 else "(" + ", ".join(names) + ")"
+
+        def block(stmts):
+            if not stmts:
+                return tup
+            b, rest = stmts[0], stmts[1:]
+            if isinstance(b, ast.Assign):
+                v, tv = self.expr(b.value, env)
+                if tv != "str":
+                    raise Untranslatable("type change in an assignment-only branch")
+                return f"(let {b.targets[0].id} : str := {v} in {block(rest)})"
+            c = self.cond_bool(b.test, env)
+            pat = names[0] if len(names) == 1 else "'" + tup
+            return f"(let {pat} := (if {c} then {block(list(b.body))} else {block(list(b.orelse))}) in {block(rest)})"
+        c = self.cond_bool(st.test, env)
+        pat = names[0] if len(names) == 1 else "'" + tup
+        return pat, f"(if {c} then {block(list(st.body))} else {block(list(st.orelse))})"
+
+    # ---- statements (continuation style)
+    def stmts(self, body, env, rec):
+        if not body:
+            raise Untranslatable("a path falls off the end of the function")
+        st, rest = body[0], body[1:]
+        k = lambda e1, r1=rec: self.stmts(rest, e1, r1)
+        if isinstance(st, ast.Expr) and isinstance(st.value, ast.Constant) and isinstance(st.value.value, str):
+            return k(env)
+        if isinstance(st, ast.AnnAssign) and isinstance(st.target, ast.Name):
+            if st.value is None:
+                return k(env)                      # a bare declaration
+            if isinstance(st.value, ast.Dict) and not st.value.keys:
+                e1 = dict(env)
+                e1[st.target.id] = "cache"
+                return f"(let {st.target.id} : list (str * cval) := [] in {k(e1)})"
+            raise Untranslatable("statement " + ast.unparse(st)[:80])
+        if isinstance(st, ast.Raise) and isinstance(st.exc, ast.Call) and isinstance(st.exc.func, ast.Name) \
+                and st.exc.func.id in ("ValueError", "TypeError") and st.cause is None:
+            return f"(Err {st.exc.func.id})"
+        if isinstance(st, ast.Return) and isinstance(st.value, ast.Name) and env.get(st.value.id) == "self":
+            missing = [f for f in self.FIELDS if f not in rec]
+            if missing:
+                raise Untranslatable("fields not set before return: " + ", ".join(missing))
+            return "(Ok (mk_gen_url " + " ".join(rec[f] for f in self.FIELDS) + "))"
+        if isinstance(st, ast.If):
+            try:
+                pat, val = self.pure_if(st, env)
+                return f"(let {pat} := {val} in {k(env)})"
+            except Untranslatable:
+                pass
+            return self.branch(st.test, env, lambda e1: self.stmts(list(st.body) + rest, e1, rec),
+                               lambda e1: self.stmts(list(st.orelse) + rest, e1, rec))
+        if isinstance(st, ast.Assign):
+            tg = st.targets
+            v = st.value
+            # a = b = c = None
+            if len(tg) > 1 and all(isinstance(t, ast.Name) for t in tg) and isinstance(v, ast.Constant) and v.value is None:
+                e1 = dict(env)
+                for t in tg:
+                    e1[t.id] = "none"
+                return k(e1)
+            if len(tg) != 1:
+                raise Untranslatable("statement " + ast.unparse(st)[:80])
+            t0 = tg[0]
+            # self = object.__new__(URL)
+            if isinstance(t0, ast.Name) and ast.unparse(v) == "object.__new__(URL)":
+                e1 = dict(env)
+                e1[t0.id] = "self"
+                return self.stmts(rest, e1, {})
+            # self._x = e
+            if isinstance(t0, ast.Attribute) and isinstance(t0.value, ast.Name) and env.get(t0.value.id) == "self":
+                if t0.attr not in self.FIELDS or t0.attr in rec:
+                    raise Untranslatable("field " + t0.attr)
+                r1 = dict(rec)
+                if t0.attr == "_cache":
+                    if isinstance(v, ast.Dict) and not v.keys:
+                        r1[t0.attr] = "[]"
+                    elif isinstance(v, ast.Name) and env.get(v.id) == "cache":
+                        r1[t0.attr] = v.id
+                    else:
+                        raise Untranslatable("_cache must be the cache variable or {}")
+                    return self.stmts(rest, env, r1)
+                x, tx = self.expr(v, env)
+                if tx != "str":
+                    raise Untranslatable("field " + t0.attr + " of type " + tx)
+                # the field keeps the value it has NOW: bind it under a fresh name
+                fresh = "f" + t0.attr
+                r1[t0.attr] = fresh
+                return f"(let {fresh} : str := {x} in {self.stmts(rest, env, r1)})"
+            # self._a, self._b, ... = t      for a tuple-valued variable t
+            if isinstance(t0, ast.Tuple) and isinstance(v, ast.Name) and isinstance(env.get(v.id), tuple) \
+                    and all(isinstance(x, ast.Attribute) and isinstance(x.value, ast.Name) and env.get(x.value.id) == "self" for x in t0.elts):
+                comps = env[v.id][1]
+                if len(comps) != len(t0.elts):
+                    raise Untranslatable("tuple arity " + ast.unparse(st)[:60])
+                r1 = dict(rec)
+                for x, cn in zip(t0.elts, comps):
+                    if x.attr not in self.FIELDS or x.attr in r1 or x.attr == "_cache" or env.get(cn) != "str":
+                        raise Untranslatable("field " + x.attr)
+                    r1[x.attr] = cn
+                return self.stmts(rest, env, r1)
+            # self._cache = {}
+            if isinstance(t0, ast.Attribute) and isinstance(t0.value, ast.Name) and env.get(t0.value.id) == "self" \
+                    and t0.attr == "_cache" and isinstance(v, ast.Dict) and not v.keys and "_cache" not in rec:
+                r1 = dict(rec)
+                r1["_cache"] = "[]"
+                return self.stmts(rest, env, r1)
+            # cache["key"] = e
+            if isinstance(t0, ast.Subscript) and isinstance(t0.value, ast.Name) and env.get(t0.value.id) == "cache" \
+                    and isinstance(t0.slice, ast.Constant) and isinstance(t0.slice.value, str):
+                c = t0.value.id
+                x, tx = self.expr(v, env)
+                return f"(let {c} := {c} ++ [({lit(t0.slice.value)}, {self.cval(x, tx)})] in {k(env)})"
+            # a, b, c = f(x)   /   a = f(x)   with f that may raise
+            if isinstance(v, ast.Call) and isinstance(v.func, ast.Name) and v.func.id in self.CALLEES \
+                    and self.CALLEES[v.func.id][3]:
+                rett = self.CALLEES[v.func.id][2]
+                call = self.call_text(v, env)
+                e1 = dict(env)
+                if isinstance(t0, ast.Tuple) and all(isinstance(x, ast.Name) for x in t0.elts):
+                    if not isinstance(rett, tuple) or len(rett) != len(t0.elts):
+                        raise Untranslatable("tuple arity " + ast.unparse(st)[:60])
+                    for x, tx in zip(t0.elts, rett):
+                        e1[x.id] = tx
+                    pat = "(" + ", ".join(x.id for x in t0.elts) + ")"
+                elif isinstance(t0, ast.Name) and not isinstance(rett, tuple):
+                    e1[t0.id] = rett
+                    pat = t0.id
+                elif isinstance(t0, ast.Name):
+                    comps = [f"{t0.id}_{i}" for i in range(len(rett))]
+                    for x, tx in zip(comps, rett):
+                        e1[x] = tx
+                    e1[t0.id] = ("tuple", tuple(comps))
+                    pat = "(" + ", ".join(comps) + ")"
+                else:
+                    raise Untranslatable("statement " + ast.unparse(st)[:80])
+                return f"(match {call} with Err e => Err e | Ok {pat} => {k(e1)} end)"
+            if isinstance(t0, ast.Name):
+                if isinstance(v, ast.IfExp):
+                    try:
+                        self.cond_bool(v.test, env)
+                        narrowing = False
+                    except Untranslatable:
+                        narrowing = True
+                    if narrowing:
+                        mk = lambda val: (lambda e1: self.stmts([ast.Assign(targets=[t0], value=val)] + rest, e1, rec))
+                        return self.branch(v.test, env, mk(v.body), mk(v.orelse))
+                x, tx = self.expr(v, env)
+                e1 = dict(env)
+                e1[t0.id] = tx
+                if tx == "none":
+                    return k(e1)
+                return f"(let {t0.id} : {self.COQ[tx]} := {x} in {k(e1)})"
+        raise Untranslatable("statement " + ast.unparse(st)[:80])
+
+    def translate(self, fd):
+        if fd.args.vararg or fd.args.kwarg or fd.args.kwonlyargs or fd.args.posonlyargs or fd.args.defaults:
+            raise Untranslatable("signature of " + fd.name)
+        for d in fd.decorator_list:
+            if ast.unparse(d).split("(")[0] not in ("lru_cache", "functools.lru_cache"):
+                raise Untranslatable("decorator " + ast.unparse(d))
+        env, params = {}, []
+        for a in fd.args.args:
+            if a.annotation is None or ast.unparse(a.annotation) != "str":
+                raise Untranslatable("parameter " + a.arg)
+            env[a.arg] = "str"
+            params.append(a.arg)
+        body = self.stmts(list(fd.body), env, {})
+        ps = " ".join(f"({n} : str)" for n in params)
+        return f"Definition gen_{fd.name} {ps} : result gen_url :=\n  {body}.", (["str"] * len(params), "gen_url")
+
+
 SOURCES = [
     # (source file, output module, header imports, tables usable in "x in TABLE", functions with stub signatures)
     ("_path.py", "PathGen", "From Yarl Require Export Base.PyStr.", (),
@@ -515,6 +928,11 @@ SOURCES = [
     ("_parse.py", "ParseGen", "From Yarl Require Export Base.PyStr Generated.Tables.", ("USES_AUTHORITY",),
      [("unsplit_result", "(scheme netloc url query fragment : str) : str", "[]"),
       ("make_netloc", "(q : str -> str) (user password host : option str) (port : option N) (encode : bool) : str", "[]", {"QUOTER": "q"})]),
+    ("_url.py", "UrlGen",
+     "From Yarl Require Export Base.PyStr Generated.Tables Model.Parse Model.Host Model.Quoters Model.Path Model.Url Model.GenTypes.\n"
+     "Section G.\nVariable O : oracles.\nVariable B : backend.", (),
+     [("encode_url", "(url_str : str) : result gen_url", "Err OtherError", "proc"),
+      ("pre_encoded_url", "(url_str : str) : result gen_url", "Err OtherError", "proc")]),
 ]
 
 
@@ -534,7 +952,9 @@ def generate_one(repo, fname, header, tables, wanted):
         try:
             if name not in fds:
                 raise Untranslatable("function " + name + " not found")
-            if tree:
+            if tree and tree[0] == "proc":
+                text, ty = ProcFn().translate(fds[name])
+            elif tree:
                 text, ty = TreeFn(tree[0]).translate(fds[name])
             else:
                 text, ty = Fn(known, tables).translate(fds[name])
@@ -545,6 +965,8 @@ def generate_one(repo, fname, header, tables, wanted):
             out.append(f"(* TRANSLATION FAILED: {str(e).replace('*)', '* )')} *)")
             out.append(f"Definition gen_{name} {sig} := {stub}.")
         out.append("")
+    if "Section G." in header:
+        out.append("End G.")
     return "\n".join(out), errors
 
 
